@@ -131,6 +131,35 @@ def build():
             return addr_of(cls, en[mem])
         finally:
             getattr(conf, setter)(False)
+    def toggled_in_worker(fam, mem, setter):
+        """the option is set by this thread and observed from a second thread started afterwards (and the other way round):
+        a process-wide option is visible to every thread, so both equal the single-threaded observation"""
+        cls, en, getter = fams[fam]
+        conf = getter.GetConfig(en[mem])
+        box = {}
+
+        def observe(k):
+            box[k] = _run(lambda: addr_of(cls, en[mem]))
+        getattr(conf, setter)(True)
+        try:
+            t = threading.Thread(target=observe, args=("worker-sees-main",))
+            t.start(); t.join()
+        finally:
+            getattr(conf, setter)(False)
+
+        def set_observe_restore():
+            getattr(conf, setter)(True)
+        t = threading.Thread(target=set_observe_restore)
+        t.start(); t.join()
+        try:
+            observe("main-sees-worker")
+        finally:
+            getattr(conf, setter)(False)
+        observe("restored")
+        return box
+    C["threadtoggle.bch.legacy"] = lambda: toggled_in_worker("Bip44", "BITCOIN_CASH", "UseLegacyAddress")
+    C["threadtoggle.bch49.legacy"] = lambda: toggled_in_worker("Bip49", "BITCOIN_CASH", "UseLegacyAddress")
+    C["threadtoggle.ltc.depr"] = lambda: toggled_in_worker("Bip44", "LITECOIN", "UseDeprecatedAddress")
     C["toggle.bch.legacy"] = lambda: toggled("Bip44", "BITCOIN_CASH", "UseLegacyAddress")
     C["toggle.bch49.legacy"] = lambda: toggled("Bip49", "BITCOIN_CASH", "UseLegacyAddress")
     C["toggle.ltc.depr"] = lambda: toggled("Bip44", "LITECOIN", "UseDeprecatedAddress")
@@ -147,6 +176,30 @@ def build():
     C["bip32.ed25519"] = lambda: Bip32Slip10Ed25519.FromSeedAndPath(seed, "m/0'/1'").PublicKey().RawCompressed().ToBytes()
     C["bip32.ed25519.soft"] = lambda: Bip32Slip10Ed25519.FromSeed(seed).ChildKey(1)
     C["substrate.polkadot"] = lambda: Substrate.FromSeedAndPath(seed[:32], "//hard/soft", SubstrateCoins.POLKADOT).PublicKey().ToAddress()
+    def substrate_siblings():
+        par = Substrate.FromSeed(seed[:32], SubstrateCoins.KUSAMA).ChildKey("//base")
+        a, b = par.ChildKey("/one"), par.ChildKey("//two")
+        a2 = par.ChildKey("/one")
+        return [par.Path().ToStr(), a.Path().ToStr(), b.Path().ToStr(), a2.Path().ToStr(), a.PublicKey().ToAddress(), a2.PublicKey().ToAddress(), b.PublicKey().ToAddress()]
+    C["substrate.siblings"] = substrate_siblings
+
+    def bip32_siblings():
+        par = Bip32Slip10Secp256k1.FromSeed(seed).ChildKey(1)
+        kids = [par.ChildKey(i) for i in (0, 2**31, 0, 7)]
+        return [par.PublicKey().RawCompressed().ToBytes(), int(par.Depth()), int(par.Index())] + [k.PublicKey().RawCompressed().ToBytes() for k in kids] + [int(k.Index()) for k in kids]
+    C["bip32.siblings"] = bip32_siblings
+
+    def ev1_pairs():
+        w = ElectrumV1.FromSeed(seed[:32])
+        pairs = [(0, 5), (1, 5), (0, 5), (1, 0), (0, 0), (1, 5)]
+        return [w.GetAddress(c, i) for c, i in pairs] + [w.GetPrivateKey(c, i).Raw().ToBytes() for c, i in pairs[:3]]
+    C["electrum.v1.pairs"] = ev1_pairs
+
+    def ev2_pairs():
+        w = ElectrumV2Standard.FromSeed(seed)
+        pairs = [(0, 5), (1, 5), (0, 5), (1, 0)]
+        return [w.GetAddress(c, i) for c, i in pairs]
+    C["electrum.v2.pairs"] = ev2_pairs
     C["monero.wallet"] = lambda: [Monero.FromSeed(seed[:32], MoneroCoins.MONERO_MAINNET).PrimaryAddress(), Monero.FromSeed(seed[:32]).Subaddress(1, 2)]
     C["electrum.v1"] = lambda: ElectrumV1.FromSeed(seed[:32]).GetAddress(0, 3)
     C["electrum.v2"] = lambda: [ElectrumV2Standard.FromSeed(seed).GetAddress(0, 1), ElectrumV2Segwit.FromSeed(seed).GetAddress(1, 0)]
